@@ -44,6 +44,9 @@ static int manifest_expansion_depth = 0;
 static const int max_manifest_expansion_depth = 1000;
 static const int max_manifest_expansions_per_invocation = 5000;
 
+// ... and to this many characters.
+static const int max_manifest_expansion_size = 1 << 18;
+
 // Set while skip_false_if_block() evaluates the condition of an #elif: the
 // handler then reports a false condition through elif_condition_was_true
 // instead of calling skip_false_if_block() again, so that a long chain of
@@ -2616,6 +2619,22 @@ expand_manifest(const CPPManifest *manifest, const YYLTYPE &loc) {
   }
 
   string expanded = " " + manifest->expand(args, false, ignores) + " ";
+
+  // A macro whose body is an unfinished invocation of another macro takes its
+  // arguments from beyond its own expansion, where it is no longer ignored,
+  // so that it can double the text on every rescan.  That stays below the
+  // limits on the number and depth of expansions; limit the size, too.
+  if (expanded.size() > (size_t)max_manifest_expansion_size) {
+    error("macro " + manifest->_name + " expands to an absurd amount of text; giving up", loc);
+    while (_infile != nullptr && _infile->_manifest != nullptr) {
+      // Discard the pending expansions.
+      InputFile *infile = _infile;
+      _infile = infile->_parent;
+      delete infile;
+    }
+    return CPPToken::eof();
+  }
+
   push_expansion(expanded, manifest, loc);
 
 #ifdef CPP_VERBOSE_LEX
